@@ -128,7 +128,12 @@ func (r *reflector) ReflectTo(src px.Value, dest reflect.Value) {
 		case px.Reflected:
 			if dt.Kind() == reflect.Interface && dt.Name() == `` {
 				// Destination is an interface{}, derive type from source
-				dest.Set(src.Reflect(r.c))
+				if rv := src.Reflect(r.c); rv.IsValid() {
+					dest.Set(rv)
+				} else {
+					// undef reflects to the invalid Value, the interface becomes nil
+					dest.Set(reflect.Zero(dt))
+				}
 			} else {
 				src.ReflectTo(r.c, dest)
 			}
